@@ -131,6 +131,19 @@ class SymInstant(object):
     def isoformat(self, *a, **k):
         return "instant"
 
+    def replace(self, **kw):
+        """datetime.replace: only truncation to whole seconds is modelled (origin is a whole second)"""
+        if kw == {"microsecond": 0}:
+            if not S.is_sym(self.s):
+                import math
+                return SymInstant(float(math.floor(self.s)))
+            whole, frac = S.fresh("whole", True), S.fresh("frac")
+            S.assume(self.s == whole + frac)
+            S.assume(frac >= 0.0)
+            S.assume(frac < 1.0)
+            return SymInstant(whole)
+        raise S.SymbolicEscape("datetime.replace(%s) is not modelled by the clock stub" % sorted(kw))
+
     def __bool__(self):
         return True
 
